@@ -13,7 +13,7 @@ func main() {
 	P, _ := load.Load(load.Config{Repo: "/repo"})
 	fn := P.Func(load.ModPath, "(*Policy).sanitizeAttrs")
 	A := model.NewAnalysis(fn)
-	A.BindConst(fn.Params[1], "a")
+	//A.BindConst(fn.Params[1], "a")
 	for _, b := range fn.Blocks {
 		if ifi, ok := b.Instrs[len(b.Instrs)-1].(*ssa.If); ok {
 			A.Cond(ifi.Cond)
